@@ -763,17 +763,19 @@ fn run(ctx: &mut Ctx) {
         eq_kind!("Framebuffer", FramebufferTag);
     }
     // indexed framebuffer: stored colour counts whose byte length crosses 8-, 16- and 17-bit boundaries, on small tags
-    ctx.bound("palette_counts", "indexed framebuffer tags of size 34..=64 and 802, 65570, 65572, 131107, 196639 (the last three hold exactly 21846, 43691 and 65535 colours) x bits-per-pixel byte in {marker, 0, 1, 2, 3, 4, 8, 15, 16, 24, 32, 255} x stored colour count in {0..=12, 16, 17, 85, 86, 255, 256, 257, 21845, 21846, 21847, 32768, 43690, 43691, 43692, 65534, 65535}: the palette is handed out only when 34 + 3 x count fits the declared size, at offset 34 with 3 x count bytes");
+    ctx.bound("palette_counts", "indexed framebuffer tags of size 34..=64 and 802, 65570, 65572, 131107, 196639 (the last three hold exactly 21846, 43691 and 65535 colours) x bits-per-pixel byte in {marker, marker with an all-zero palette, 0, 1, 2, 3, 4, 8, 15, 16, 24, 32, 255} x stored colour count in {0..=12, 16, 17, 85, 86, 255, 256, 257, 21845, 21846, 21847, 32768, 43690, 43691, 43692, 65534, 65535}: the palette is handed out only when 34 + 3 x count fits the declared size, at offset 34 with 3 x count bytes");
     for size in (34usize..=64).chain([802, 65570, 65572, 131107, 196639]) {
         for count in (0u16..=12).chain([16, 17, 85, 86, 255, 256, 257, 21845, 21846, 21847, 32768, 43690, 43691, 43692, 65534, 65535]) {
           // the bits-per-pixel byte: a marker value, and the depths for which 2^bpp lies below / at / above the count
-          for bpp in [-1i32, 0, 1, 2, 3, 4, 8, 15, 16, 24, 32, 255] {
+          // (-2: marker bits-per-pixel byte and an all-zero palette - the colour count is then followed by zero bytes, so
+          // that the count also reads as a 32-bit number)
+          for bpp in [-1i32, -2, 0, 1, 2, 3, 4, 8, 15, 16, 24, 32, 255] {
             if bpp >= 0 && size > 64 {
                 continue;
             }
             let mut img = vec![0u8; round8(size)];
             for i in 8..img.len() {
-                img[i] = marker(i, 4);
+                img[i] = if bpp == -2 && i >= 34 { 0 } else { marker(i, 4) };
             }
             wr32(&mut img, 0, bi::FRAMEBUFFER);
             wr32(&mut img, 4, size as u32);
